@@ -1552,14 +1552,16 @@ def callTh (c : Cfg) (s : State) (x : Th) (x0 : Th) (op : Op) : Th :=
     let x1 : Th := { x0 with v := fu.item.getD 0, item := fu.item, myId := fu.myId, reg := fu.reg, curF := f }
     (match fu.kind with
      | .send => { x1 with pc := .cClosed, chk := .pollS }
-     | _ => { x1 with pc := .rClosed })
+     | .recv => { x1 with pc := .rClosed }
+     | .absent => retWith x1 .none)
   | .dropFut f =>
     let fu := s.fut f
     let x1 : Th := { x0 with myId := fu.myId, reg := fu.reg, curF := f, fin := .dropFut,
                              res := if fu.kind ≠ .absent ∧ 0 < s.wakes f then .okWoken else .ok }
     (match fu.kind with
      | .send => if fu.myId.isSome then { x1 with pc := .uaLock } else { x1 with pc := .ret }
-     | _ => if fu.reg then { x1 with pc := .auLock } else { x1 with pc := .ret })
+     | .recv => if fu.reg then { x1 with pc := .auLock } else { x1 with pc := .ret }
+     | .absent => { x1 with pc := .ret })
   | .wakes f => retWith x0 (.n (s.wakes f))
   | .recv => { x0 with pc := .rClosed }
   | .tryRecv => { x0 with pc := .rClosed }
